@@ -98,6 +98,9 @@ func init() {
 			sess := newCliSess()
 			defer sess.close()
 			root := rootArg(dir, in)
+			// the report directory was used before, for another project: its apis.json is still there
+			sess.writeJSON("apis.json", []api_domain.RestAPI{{Uri: "/stale/one", HttpMethod: "GET", MethodName: "old", PackageName: "old.pkg", ClassName: "OldController"},
+				{Uri: "/stale/two", HttpMethod: "POST", MethodName: "older", PackageName: "old.pkg", ClassName: "OldController"}})
 			if o, ok := sess.run("analysis", "-p", root); !ok {
 				return L(L(A("!CLI-ERROR analysis"), A(panicClass(o)), A(""), A(""), A(""), A("")))
 			}
